@@ -102,7 +102,10 @@ def hl_step(draw, n, names, partitioned, positional_only=False, depth=None, sort
     if op == "flatten":
         return {"op": op, "axis": draw(st.sampled_from([None, 1, 1]))}
     if op == "sum":
-        return {"op": op, "axis": None}      # reducing at an axis runs into other properties' known findings (non-local reduction, negative axis through records)
+        # reducing at an axis runs into other properties' known findings (non-local reduction, negative axis through records); without an
+        # axis every reducer combines one result per partition (added after the seeded change C03-h - ak.max(axis=None) folding the pieces
+        # with the wrong comparison - was missed)
+        return {"op": op, "axis": None, "name": draw(st.sampled_from(["sum", "sum", "max", "min", "count", "count_nonzero", "any", "all"]))}
     if op == "field":
         return {"op": op, "name": draw(st.sampled_from(list(names) + ["nope"]))}
     if op == "repartition":
@@ -217,7 +220,7 @@ def papply(A, x, spec):
     if op == "flatten":
         return A.flatten(x, axis=spec["axis"])
     if op == "sum":
-        return A.sum(x, axis=spec["axis"])
+        return getattr(A, spec.get("name", "sum"))(x, axis=spec["axis"])
     if op == "add1":
         return x + 1
     if op == "is_none":
